@@ -74,7 +74,13 @@ def both_limits(r: R, chk, qual: str):
     rejecting = []
     for t in [n for n in r.stmt_nodes(ctx) if n.kind == "test"]:
         arm_false = any(isinstance(ctx.cfg.nodes[x].ast, ast.Return) and isinstance(ctx.cfg.nodes[x].ast.value, ast.Constant) and ctx.cfg.nodes[x].ast.value.value is False for x, lab in t.succ if lab == "t")
-        if arm_false:
+        if arm_false and isinstance(t.ast, ast.UnaryOp) and isinstance(t.ast.op, ast.Not):
+            # if not (lo <= node <= hi): return False   — rejecting: the negation of every conjunct
+            for c in conjuncts(t.ast.operand):
+                sc = simple(c)
+                if sc is not None:
+                    rejecting.append((sc[2], not sc[1], sc[0]))
+        elif arm_false:
             rejecting += [simple(d) for d in disjuncts(t.ast)]
     for n in r.stmt_nodes(ctx):
         if isinstance(n.ast, ast.Return) and n.ast.value is not None:
